@@ -13,7 +13,6 @@ import (
 	"path/filepath"
 	"regexp"
 	"sort"
-	"strconv"
 	"time"
 
 	enc "github.com/DataDog/sketches-go/ddsketch/encoding"
@@ -42,8 +41,17 @@ type traceEvent struct {
 	Obs    *traceObs   `json:"obs,omitempty"`
 	ArgObs *traceObs   `json:"argobs,omitempty"`
 	Alloc  int         `json:"alloc"`
+	Lay    *traceLayout `json:"lay,omitempty"`
 	Kinds  []ModelKind `json:"kinds,omitempty"`
 	Real   []string    `json:"real,omitempty"` // informational: real type per object
+}
+
+type traceLayout struct {
+	Len  int  `json:"len"`
+	Off  int  `json:"off"`
+	Mn   int  `json:"mn"`
+	Mx   int  `json:"mx"`
+	Coll bool `json:"coll"`
 }
 
 const traceQ = 64 // quanta per unit in recorded traces
@@ -127,6 +135,8 @@ func observeForTrace(s store.Store, rng *rand.Rand, forceFull bool) (*traceObs, 
 }
 
 type traceGenOpts struct {
+	Layout bool // also validate the recorded array layout against DenseImpl.tla (Trace_Dense)
+	MaxWidth int // bound on the width of index clusters (array-level validation copies whole arrays per event)
 	Events int
 	Limits []int // bin limits offered to collapsing objects
 	Kinds  []string
@@ -163,12 +173,15 @@ func recordStoreTrace(w *bufio.Writer, rng *rand.Rand, o traceGenOpts, counters 
 		base = []int{0, -32, 31, 64, -1000, 1 << 20}[rng.Intn(6)]
 	}
 	width := []int{3, 10, 40, 200, 3000}[rng.Intn(5)]
-	far := rng.Intn(4) == 0
+	if o.MaxWidth > 0 && width > o.MaxWidth {
+		width = o.MaxWidth
+	}
+	far := rng.Intn(4) == 0 && o.MaxWidth == 0
 	genIndex := func(recvKind string) int {
 		i := base + rng.Intn(width)
 		if far && recvKind != "dense" && recvKind != "low" && recvKind != "high" && recvKind != "paged" && rng.Intn(5) == 0 {
 			i += (rng.Intn(7) - 3) * (1 << 24)
-		} else if rng.Intn(10) == 0 {
+		} else if rng.Intn(10) == 0 && o.MaxWidth == 0 {
 			i += rng.Intn(20*width) - 10*width
 		}
 		if i > 1<<30 {
@@ -326,6 +339,7 @@ func recordStoreTrace(w *bufio.Writer, rng *rand.Rand, o traceGenOpts, counters 
 		}
 		lay := store.VerifLayout(objs[recv-1])
 		ev.Alloc = lay.ArrayLen
+		ev.Lay = &traceLayout{Len: lay.ArrayLen, Off: lay.Offset, Mn: lay.MinIndex, Mx: lay.MaxIndex, Coll: lay.Collapsed}
 		if lay.Collapsed {
 			counters["layout:collapsed"]++
 		}
@@ -383,12 +397,7 @@ func (c *Ctx) runStoreTraces(nTraces int, o traceGenOpts, purpose string) {
 		Constants: fmt.Sprintf("%d traces x %d events, kinds=%v limits=%v ops=%v Q=%d", nTraces, o.Events, o.Kinds, o.Limits, o.Ops, traceQ)})
 	if res.Violated != "" {
 		// the last state of TLC's counterexample holds l = index of the next line; the offending event is line l-1
-		ms := reTraceL.FindAllStringSubmatch(res.ErrorText, -1)
-		lineNo := 0
-		if len(ms) > 0 {
-			lineNo, _ = strconv.Atoi(ms[len(ms)-1][1])
-			lineNo--
-		}
+		lineNo := res.LastL - 1
 		keep := filepath.Join(verifRoot, "replays", fmt.Sprintf("%s-trace-%d.ndjson", c.Prop, c.Seed))
 		os.MkdirAll(filepath.Dir(keep), 0o755)
 		copyFile(path, keep)
@@ -398,6 +407,33 @@ func (c *Ctx) runStoreTraces(nTraces int, o traceGenOpts, purpose string) {
 			Actual: json.RawMessage(evLine), Tags: map[string]string{"outcome": "trace-rejected", "invariant": res.Violated}})
 	} else if res.Distinct != int64(lines)+1 {
 		infraFail("trace validation consumed %d of %d lines without reporting a violation:\n%s", res.Distinct-1, lines, res.Output)
+	}
+	if res.Violated == "" && o.Layout {
+		cfgD := `INIT TraceInit
+NEXT TraceNext
+CONSTANTS
+  Overhead = 64
+  FixF3 = TRUE
+  Slots <- TSlots
+  Keys = {0}
+  Weights = {0}
+  InitKinds = 0
+  MaxTotal = 0
+INVARIANTS LayoutMatches
+CHECK_DEADLOCK FALSE
+`
+		resD := c.runTLC(TLCOpts{Module: "Trace_Dense", Cfg: cfgD, Purpose: "array-layout trace validation " + purpose, Workers: 1,
+			Env: []string{"VERIF_TRACE=" + path}, Timeout: 60 * time.Minute, Constants: "overhead=64 (real constant)"})
+		if resD.Violated != "" {
+			lineNo := resD.LastL - 1
+			keep := filepath.Join(verifRoot, "replays", fmt.Sprintf("%s-trace-%d.ndjson", c.Prop, c.Seed))
+			os.MkdirAll(filepath.Dir(keep), 0o755)
+			copyFile(path, keep)
+			// the array layout is implementation detail: a disagreement is conformance drift of DenseImpl.tla, not a violation of the property
+			c.driftNote("recorded array layout of a dense store differs from DenseImpl.tla at trace line %d (%s): %.300s", lineNo, keep, nthLine(path, lineNo))
+		} else if resD.Distinct != int64(lines)+1 {
+			infraFail("Trace_Dense consumed %d of %d lines\n%s", resD.Distinct-1, lines, resD.Output)
+		}
 	}
 	c.mu.Lock()
 	c.Ev.Coverage.Traces += int64(nTraces)
